@@ -10,4 +10,3 @@ INVARIANT OrderKept
 INVARIANT Representable
 INVARIANT StoredOnce
 INVARIANT NamesFresh
-INVARIANT Export
